@@ -4,13 +4,18 @@ import (
 	"context"
 	"fmt"
 	"math/rand"
+	"path/filepath"
+	"strings"
 	"sync/atomic"
 	"time"
 
+	cfgtypes "github.com/agglayer/aggkit/config/types"
 	dbtypes "github.com/agglayer/aggkit/db/types"
+	"github.com/agglayer/aggkit/reorgdetector"
 	aggsync "github.com/agglayer/aggkit/sync"
 	aggkittypes "github.com/agglayer/aggkit/types"
 	"github.com/ethereum/go-ethereum/common"
+	"verifharness/faultdb"
 	"verifharness/fakes"
 	"verifharness/mon"
 )
@@ -92,10 +97,31 @@ type winNode struct {
 	closeD func()
 }
 
-func startWinNode(ch *fakes.Chain, dir string, p *memProc, chunk uint64, buffer int) (*winNode, error) {
+// slowTrackedDelete: the detector's "DELETE FROM tracked_block" statements take this long (a slow
+// disk); 0 = the detector is built by its own constructor
+
+func startWinNode(ch *fakes.Chain, dir string, p *memProc, chunk uint64, buffer int, slowTrackedDelete ...time.Duration) (*winNode, error) {
 	ctx, cancel := context.WithCancel(context.Background())
 	cl := ch.Client()
-	rd, err := newDetector(cl, dir)
+	var rd *reorgdetector.ReorgDetector
+	var err error
+	if len(slowTrackedDelete) > 0 && slowTrackedDelete[0] > 0 {
+		path := filepath.Join(dir, "rd.sqlite")
+		dbh, ctl, derr := faultdb.Open(path)
+		if derr != nil {
+			cancel()
+			return nil, derr
+		}
+		d := slowTrackedDelete[0]
+		ctl.SetDelay(func(kind, query string) {
+			if strings.HasPrefix(strings.TrimSpace(query), "DELETE FROM tracked_block") {
+				time.Sleep(d)
+			}
+		})
+		rd, err = reorgdetector.VerifNewWithDB(cl, reorgdetector.Config{DBPath: path, CheckReorgsInterval: cfgtypes.NewDuration(time.Millisecond), FinalizedBlock: aggkittypes.FinalizedBlock}, reorgdetector.L1, dbh)
+	} else {
+		rd, err = newDetector(cl, dir)
+	}
 	if err != nil {
 		cancel()
 		return nil, err
@@ -158,7 +184,11 @@ func c06Window(r *mon.Run, caseID string, g *rand.Rand, variant string) {
 		dir := scratchDir("c06w")
 		p := &memProc{failPlan: map[uint64]int{}}
 		chunk := uint64([]int{1, 3, 10}[g.Intn(3)])
-		node, err := startWinNode(ch, dir, p, chunk, []int{0, 1, 100}[g.Intn(3)])
+		var slowDel time.Duration
+		if variant == "retrack-window" {
+			slowDel = 25 * time.Millisecond
+		}
+		node, err := startWinNode(ch, dir, p, chunk, []int{0, 1, 100}[g.Intn(3)], slowDel)
 		if err != nil {
 			r.Inconclusive("cannot start node: " + err.Error())
 			return
@@ -258,10 +288,53 @@ func c06Window(r *mon.Run, caseID string, g *rand.Rand, variant string) {
 				r.Violation("C06:initial-sync-incomplete", caseID, w, scen)
 				return
 			}
+		case "retrack-window":
+			// fork 1 replaces processed blocks by blocks that all carry events; the driver rewinds,
+			// acknowledges and re-tracks the new blocks while the detector's delete of the old range
+			// is still on its way (slow disk)
+			if w := waitAll(30 * time.Second); w != "" {
+				node.kill(time.Second)
+				r.Violation("C06:initial-sync-incomplete", caseID, w, scen)
+				return
+			}
+			ld, fin := lastDelivered(), ch.Finalized()
+			if ld <= fin+1 {
+				node.kill(time.Second)
+				r.Eval("")
+				return
+			}
+			a1 := fin + 1 + uint64(g.Intn(int(ld-fin)))
+			head := ch.Latest()
+			if nb := ch.Fork(a1, int(head-a1)+1, func(uint64, common.Hash, uint64) []fakes.LogSpec { return genericLogs(g, 1, true) }); nb == nil {
+				node.kill(time.Second)
+				r.Eval("")
+				return
+			}
+			trace = append(trace, fmt.Sprintf("fork 1 at %d (finalized %d, head %d); the detector's DELETE FROM tracked_block takes 25 ms", a1, fin, head))
+			if w := waitAll(30 * time.Second); w != "" {
+				node.kill(time.Second)
+				r.Violation("C06:recording-store-does-not-converge:retrack-window", caseID, "after fork 1: "+w, scen)
+				return
+			}
+			time.Sleep(80 * time.Millisecond) // the delayed delete has happened
+			for i := 0; i < 2; i++ {
+				ch.Mine(genericLogs(g, 1, true))
+			}
+			if w := waitAll(30 * time.Second); w != "" {
+				node.kill(time.Second)
+				r.Violation("C06:recording-store-does-not-converge:retrack-window", caseID, "after fork 1 and two more blocks: "+w, scen)
+				return
+			}
+			// fork 2 replaces the same heights again
+			if !forkAt(a1) {
+				node.kill(time.Second)
+				r.Eval("")
+				return
+			}
 		}
 
 		// second incarnation (same detector database, same store)
-		if variant != "slow-store" {
+		if variant != "slow-store" && variant != "retrack-window" {
 			if node, err = startWinNode(ch, dir, p, chunk, 1); err != nil {
 				r.Inconclusive("cannot restart node: " + err.Error())
 				return
